@@ -659,13 +659,16 @@ type orderSpec struct {
 }
 
 type replayFile struct {
-	Property     string          `json:"property"`
-	Engine       string          `json:"engine"`
-	Seed         uint64          `json:"seed"`
-	Input        snapInput       `json:"workload"`
-	Order        *orderSpec      `json:"order,omitempty"` // the order that disagrees with the sorted order (oracle 1)
-	Oracle       string          `json:"oracle"`
-	Digest       string          `json:"digest,omitempty"` // plain engine: digest another process produced
+	Property string     `json:"property"`
+	Engine   string     `json:"engine"`
+	Seed     uint64     `json:"seed"`
+	Input    snapInput  `json:"workload"`
+	Order    *orderSpec `json:"order,omitempty"` // the order that disagrees with the sorted order (oracle 1)
+	Oracle   string     `json:"oracle"`
+	Digest   string     `json:"digest,omitempty"` // plain engine: digest another process produced
+	// Prelude: evaluate this many preceding seeds first (state kept across calls may make
+	// a violation depend on what the process did before)
+	Prelude      int             `json:"prelude,omitempty"`
 	Violation    *simh.Violation `json:"violation,omitempty"`
 	ShrinkArrays []string        `json:"shrink_arrays"`
 	ShrinkInts   []string        `json:"shrink_ints"`
@@ -759,6 +762,13 @@ func evaluate(in *snapInput, seed uint64, nOrders int, fixed *orderSpec) (*simh.
 		other := genInput(seed ^ 0x5bd1e995)
 		other.Keep = !in.Keep
 		_ = call(&other, other.IDs, other.Rings, other.Reverse)
+		// ... and two related calls on the same grid and deepest level: the polygon moved
+		// half way out of the grid (skipped, ignore flag on), and moved by a few pixels
+		for _, variant := range []string{"half-outside", "nearby", "nearby-then-outside"} {
+			rel := relatedInput(in, variant)
+			_ = call(&rel, rel.IDs, rel.Rings, rel.Reverse)
+			st.calls++
+		}
 		r5 := call(in, in.IDs, in.Rings, in.Reverse)
 		st.calls += 2
 		st.probes.Inc("oracle5-repetition-after-unrelated-call")
@@ -794,6 +804,42 @@ func evaluate(in *snapInput, seed uint64, nOrders int, fixed *orderSpec) (*simh.
 	simrt.SetMapOrder(simrt.MapNative, 0)
 	st.nontrivial = st.effective > 0
 	return nil, nil, "", st
+}
+
+// relatedInput derives another call on the same grid and ids from an input.
+func relatedInput(in *snapInput, variant string) snapInput {
+	rel := *in
+	rel.Lattice = make([][][2]int64, len(in.Lattice))
+	minX, maxX := int64(math.MaxInt64), int64(math.MinInt64)
+	for _, ring := range in.Lattice {
+		for _, p := range ring {
+			minX, maxX = minI64(minX, p[0]), maxI64(maxX, p[0])
+		}
+	}
+	dx, dy := int64(24), int64(16) // a few pixels of the deepest level (8 lattice units each)
+	if variant == "half-outside" {
+		dx, dy = -(minX + (maxX-minX)/2), 0
+		rel.IgnoreOut = true
+	}
+	for i, ring := range in.Lattice {
+		rel.Lattice[i] = make([][2]int64, len(ring))
+		for j, p := range ring {
+			x := p[0] + dx
+			if variant == "half-outside" && x < 0 && x > -24 {
+				x = -24 // stay clear of the band in which the library does not see "outside"
+			}
+			rel.Lattice[i][j] = [2]int64{x, p[1] + dy}
+		}
+	}
+	if variant == "nearby-then-outside" && len(rel.Lattice) > 0 && len(rel.Lattice[0]) > 0 {
+		// the same neighbourhood, but the shell's last vertex lies far outside the grid: with
+		// the ignore flag the polygon is skipped after its other vertices were looked at
+		y := rel.Lattice[0][0][1]
+		rel.Lattice[0] = append(rel.Lattice[0], [2]int64{-4000, y})
+		rel.IgnoreOut = true
+	}
+	rel.materialise()
+	return rel
 }
 
 func probe(in *snapInput, r0 result, st *evalStats) {
@@ -1017,6 +1063,12 @@ func candidates(job *simh.Job, out *simh.Out) {
 				}
 			}
 		default:
+			for k := rf.Prelude; k >= 1; k-- {
+				if rf.Seed >= uint64(k) {
+					pin := genInput(rf.Seed - uint64(k))
+					evaluate(&pin, rf.Seed-uint64(k), 4, nil)
+				}
+			}
 			in := rf.Input
 			if rf.Oracle != "map-order" {
 				rf.Order = nil
